@@ -560,6 +560,7 @@ package sqlite3
 //@   ghost lastStmt *sql.Stmt = nil
 //@   at call StmtContext#*: ghost onTx := onTx && callarg0 == tx
 //@   at call StmtContext#*: ghost lastStmt := callarg2
+//@   at call QueryRow#1: assert the-scan-destinations-start-empty-for-every-key: simpleValue == nil && leaseToken == 0
 //@   at call QueryRow#1: assert reads-the-simple-value-of-this-key-in-the-transaction: onTx && lastStmt == s.stmts.exportSimpleGet && len(callarg1) == 1 && cast(callarg1[0], "[]byte") == key
 //@   at call Query#1: assert reads-the-children-of-this-key-in-the-transaction: onTx && lastStmt == s.stmts.exportPrefixList && len(callarg1) == 1 && cast(callarg1[0], "[]byte") == key
 //@   at call QueryRow#2: assert reads-the-lease-of-this-key-in-the-transaction: onTx && lastStmt == s.stmts.exportLeaseGet && len(callarg1) == 1 && cast(callarg1[0], "[]byte") == key
